@@ -104,6 +104,9 @@ class Engine:
         self.hooks = {}                   # harness-level hooks
         self.lazy_pkgs = set()            # packages whose __init__ is only run on demand
         self.range_cap = None
+        self.second_solver = False
+        self.second_budget = 0
+        self.second = {}
         self.qcache = {}
         self.pc_hash = 0
         self.pc_refs = []
